@@ -293,6 +293,9 @@ pub fn eval(ctx: &Ctx, case: &Case) {
 pub struct Session {
     pub cfg: Config,
     pub runs: Vec<u8>,
+    /// the two objects come from `build_ex_pair(klen, id_A, id_B)` (key pairs drawn through the RNG seam: d_A, then d_B)
+    #[serde(default)]
+    pub build_pair: bool,
 }
 /// wrapper so that a session serialises as {"Session": {...}} in prefixes and replay records
 #[derive(Serialize, Deserialize, Clone, Debug)]
@@ -311,10 +314,23 @@ pub fn eval_session(ctx: &Ctx, sess: &Session) {
     let (pa_ref, pb_ref) = (sm2::g_mul(&da), sm2::g_mul(&db));
     let (za, zb) = (sm2::za(&id_bytes(&cfg.ida), &pa_ref), sm2::za(&id_bytes(&cfg.idb), &pb_ref));
     let n = &sm2::params().n;
-    let mk = guard(|| (Exchange::new(cfg.klen, cfg.ida.as_deref(), &pka, &ska, cfg.idb.as_deref(), &pkb), Exchange::new(cfg.klen, cfg.idb.as_deref(), &pkb, &skb, cfg.ida.as_deref(), &pka)));
-    let (mut alice, mut bob) = match mk {
-        Guard::Done((Ok(a), Ok(b))) => (a, b),
-        _ => return,
+    let (mut alice, mut bob) = if sess.build_pair {
+        let (ia, ib) = (cfg.ida.clone().unwrap_or_default(), cfg.idb.clone().unwrap_or_default());
+        let (r, _) = with_rng(vec![cand(&da), cand(&db)], || gm_sm2::exchange::build_ex_pair(cfg.klen, &ia, &ib));
+        ctx.call();
+        match r {
+            Guard::Done(Ok(v)) => v,
+            other => {
+                ctx.violation("build_ex_pair", "not-ok", gdbg(&other.map(|r| r.map(|_| ()))), cj());
+                return;
+            }
+        }
+    } else {
+        let mk = guard(|| (Exchange::new(cfg.klen, cfg.ida.as_deref(), &pka, &ska, cfg.idb.as_deref(), &pkb), Exchange::new(cfg.klen, cfg.idb.as_deref(), &pkb, &skb, cfg.ida.as_deref(), &pka)));
+        match mk {
+            Guard::Done((Ok(a), Ok(b))) => (a, b),
+            _ => return,
+        }
     };
     ctx.depth(sess.runs.len() as u64);
     let mut g = SplitMix::new(ctx.seed, "c15session");
@@ -439,7 +455,7 @@ fn next_choices(adv: &[u16]) -> Vec<u16> {
 pub fn run(ctx: &Arc<Ctx>) {
     refmodels::selftest::run(&["sm3", "sm2"]).unwrap_or_else(|e| ctx.machinery_error(format!("reference self-test failed: {}", e)));
     let n = sm2::params().n.clone();
-    ctx.set_rule("stateright BFS over all man-in-the-middle choice sequences on the real Exchange objects: R_A->B, R_B->A in {pass, re-randomised Jacobian representation, affine as decoded from the wire, -R, 2R, G, off-curve, point at infinity}, S_B->A, S_A->B in {pass, first bit flipped, last bit flipped, all-zero}, R_A handed to exchange_4 in the 6 point choices; every subset of the messages altered x every kind, per configuration (key pairs {Annex, (1,n-2), (n-2,2), seeded} x IDs x klen). Honest paths additionally for every klen 1..=200, klen in {8160, 8191, 8192, 8193, 8225, 65537} and the nonce product r_A x r_B; every single-bit flip of S_B and of S_A on otherwise honest runs; keys crafted so that the peer's P + [x-bar]R' is the point at infinity for an adversary-chosen R' (the shared point is O: both roles must report failure, also against an S_B forged for a zero point). Invariant: honest deliveries (incl. re-randomised) give both sides the reference K (w=127), S_B, S_A (one-byte tags) and exchange_4 = true; any altered message makes the receiving step fail; off-curve points are refused by the step that receives them; a panic is a violation. ephemeral scalars fixed through the RNG seam. Sessions: every sequence of <= 3 (thorough 4) runs over {honest, honest with roles swapped, abandoned after exchange_2, S_B altered, off-curve R_A} on one pair of Exchange objects - every honest run must yield the standard's values for its own ephemeral scalars.");
+    ctx.set_rule("stateright BFS over all man-in-the-middle choice sequences on the real Exchange objects: R_A->B, R_B->A in {pass, re-randomised Jacobian representation, affine as decoded from the wire, -R, 2R, G, off-curve, point at infinity}, S_B->A, S_A->B in {pass, first bit flipped, last bit flipped, all-zero}, R_A handed to exchange_4 in the 6 point choices; every subset of the messages altered x every kind, per configuration (key pairs {Annex, (1,n-2), (n-2,2), seeded} x IDs x klen). Honest paths additionally for every klen 1..=200, klen in {8160, 8191, 8192, 8193, 8225, 65537} and the nonce product r_A x r_B; every single-bit flip of S_B and of S_A on otherwise honest runs; keys crafted so that the peer's P + [x-bar]R' is the point at infinity for an adversary-chosen R' (the shared point is O: both roles must report failure, also against an S_B forged for a zero point). Invariant: honest deliveries (incl. re-randomised) give both sides the reference K (w=127), S_B, S_A (one-byte tags) and exchange_4 = true; any altered message makes the receiving step fail; off-curve points are refused by the step that receives them; a panic is a violation. ephemeral scalars fixed through the RNG seam. Honest runs with a static key equal to x-bar(R)*r (the peer's P + [x-bar]R is a doubling). Sessions: every sequence of <= 3 (thorough 4) runs over {honest, honest with roles swapped, abandoned after exchange_2, S_B altered, off-curve R_A} on one pair of Exchange objects - every honest run must yield the standard's values for its own ephemeral scalars.");
     let mut g = SplitMix::new(ctx.seed, "c15");
     let annex = ("81EB26E941BB5AF16DF116495F90695272AE2CD63D6C4AE1678418BE48230029", "785129917D45A9EA5437A59356B82338EAADDA6CEB199088F14AE10DEFA229B5", "D4DE15474DB74D06491C440D305E012400990F3E390C7E87153C12DB2EA60BB3", "7E07124814B309489125EAED101113164EBF0F3458C5BD88335C1F9D596243D6");
     let seeded: Vec<BigUint> = (0..4).map(|_| g.nonzero_below(&(&n - 2u32))).collect();
@@ -514,13 +530,42 @@ pub fn run(ctx: &Arc<Ctx>) {
             }
         }
     }
+    // static key equal to x-bar(R) * r: the peer's P + [x-bar]R is then the sum of two EQUAL points (in different
+    // representations) - a doubling inside the protocol; the run is honest and must succeed with the standard's values
+    {
+        for (who, r) in [("A", &seeded[0]), ("B", &seeded[2])] {
+            let rpt = sm2::g_mul(r);
+            let dd = (sm2::xbar(&rpt.as_ref().unwrap().0) * r) % &n;
+            if dd >= BigUint::one() && dd <= &n - 2u32 {
+                let other = hexbig(&seeded[1]);
+                let cfg = if who == "A" {
+                    Config { da: hexbig(&dd), db: other, ida: None, idb: Some("bob456@qq.com".into()), klen: 16, ra: hexbig(r), rb: hexbig(&seeded[3]), cancel_a: None, cancel_b: None }
+                } else {
+                    Config { da: other, db: hexbig(&dd), ida: None, idb: Some("bob456@qq.com".into()), klen: 16, ra: hexbig(&seeded[3]), rb: hexbig(r), cancel_a: None, cancel_b: None }
+                };
+                for adv in [vec![0u16, 0, 0, 0, 0], vec![1, 8, 0, 0, 1], vec![8, 1, 0, 0, 8]] {
+                    cases.push(Case { cfg: cfg.clone(), adv, tag: "honest/static-key=xbar*r(doubling)".into() });
+                }
+            }
+        }
+    }
     ctx.sample(serde_json::to_value(&cases[15]).unwrap());
     run_cases(ctx, &cases, 4, eval);
     // ---- sessions: every sequence of <= L runs over the five run kinds on ONE pair of Exchange objects
     {
         let depth = ctx.tier.pick(3usize, 4);
         let (st, hists) = explore_collect(vec![vec![0u16], vec![1u16]], Box::new(move |h: &[u16]| if h.len() - 1 < depth { (0..RUN_KINDS.len() as u16).collect() } else { vec![] }));
-        let sessions: Vec<SessCase> = hists.iter().filter(|h| h.len() > 1).map(|h| SessCase::Session(Session { cfg: cfgs[(h[0] as usize * klens.len()) % cfgs.len()].clone(), runs: h[1..].iter().map(|x| *x as u8).collect() })).collect();
+        let sessions: Vec<SessCase> = hists.iter().filter(|h| h.len() > 1).map(|h| SessCase::Session(Session { cfg: cfgs[(h[0] as usize * klens.len()) % cfgs.len()].clone(), runs: h[1..].iter().map(|x| *x as u8).collect(), build_pair: false })).collect();
+        // the convenience constructor: both objects from build_ex_pair with explicit, different IDs
+        let mut sessions = sessions;
+        for (ida, idb) in [("alice123@qq.com", "bob456@qq.com"), ("A", "")] {
+            let mut c = cfgs[klens.len() % cfgs.len()].clone();
+            c.ida = Some(ida.into());
+            c.idb = Some(idb.into());
+            for runs in [vec![0u8], vec![1u8], vec![0u8, 1]] {
+                sessions.push(SessCase::Session(Session { cfg: c.clone(), runs, build_pair: true }));
+            }
+        }
         ctx.cov("session_model", json!({"run_kinds": RUN_KINDS, "max_runs_per_session": depth, "unique_states": st.unique_states, "sessions_judged": sessions.len()}));
         ctx.sample(serde_json::to_value(&sessions[sessions.len() - 1]).unwrap());
         run_cases(ctx, &sessions, 4, |c, s| {
